@@ -1,5 +1,6 @@
 mod adapt;
 mod checks;
+mod cli;
 mod common;
 mod constants;
 mod exact;
@@ -11,176 +12,11 @@ mod recstrat;
 mod splinegen;
 
 use common::*;
-use std::process::exit;
 
 fn registry() -> Vec<Box<dyn Check>> {
-    vec![Box::new(checks::c01::C01), Box::new(checks::c02::C02), Box::new(checks::c03::C03), Box::new(checks::c04::C04), Box::new(checks::c05::C05), Box::new(checks::c06::C06), Box::new(checks::c07::C07), Box::new(checks::c08::C08), Box::new(checks::c09::C09), Box::new(checks::c10::C10), Box::new(checks::c11::C11), Box::new(checks::c12::C12), Box::new(checks::c13::C13), Box::new(checks::c14::C14), Box::new(checks::c15::C15), Box::new(checks::c16::C16), Box::new(checks::c20::C20)]
-}
-
-fn find(id: &str) -> Box<dyn Check> {
-    registry().into_iter().find(|c| c.id() == id).unwrap_or_else(|| {
-        eprintln!("unknown property id {id}");
-        exit(2)
-    })
-}
-
-fn usage() -> ! {
-    eprintln!("usage: vcheck <ID> [--tier quick|thorough] [--seed N] [--threads N] | vcheck replay <file> | vcheck list");
-    exit(2)
+    vec![Box::new(checks::c01::C01), Box::new(checks::c02::C02), Box::new(checks::c03::C03), Box::new(checks::c04::C04), Box::new(checks::c05::C05), Box::new(checks::c06::C06), Box::new(checks::c07::C07), Box::new(checks::c08::C08), Box::new(checks::c09::C09), Box::new(checks::c10::C10), Box::new(checks::c11::C11), Box::new(checks::c12::C12), Box::new(checks::c13::C13), Box::new(checks::c14::C14), Box::new(checks::c15::C15), Box::new(checks::c16::C16), Box::new(checks::c17::C17), Box::new(checks::c18::C18), Box::new(checks::c20::C20)]
 }
 
 fn main() {
-    let args: Vec<String> = std::env::args().skip(1).collect();
-    if args.is_empty() {
-        usage();
-    }
-    install_quiet_panic_hook();
-    match exact::selftest(0x5eed) {
-        Ok(_) => {}
-        Err(e) => {
-            println!("INCONCLUSIVE exact-arithmetic self test failed: {e}");
-            exit(2);
-        }
-    }
-    if args[0] == "list" {
-        for c in registry() {
-            println!("{}", c.id());
-        }
-        return;
-    }
-    if args[0] == "replay" {
-        let path = args.get(1).cloned().unwrap_or_else(|| usage());
-        let text = std::fs::read_to_string(&path).unwrap_or_else(|e| {
-            eprintln!("cannot read {path}: {e}");
-            exit(2)
-        });
-        let v: serde_json::Value = serde_json::from_str(&text).unwrap_or_else(|e| {
-            eprintln!("bad replay file: {e}");
-            exit(2)
-        });
-        let id = v["property"].as_str().unwrap_or("").to_string();
-        let check = find(&id);
-        match replay(check.as_ref(), &v) {
-            Ok(()) => {
-                println!("replay of {path}: property {id} holds on this case");
-                exit(0);
-            }
-            Err(f) => {
-                println!("replay failure [{}]: {}", f.sig, f.msg);
-                println!("VIOLATION property={id} replay={path}");
-                exit(1);
-            }
-        }
-    }
-    let id = args[0].clone();
-    let mut tier = Tier::Quick;
-    let mut seed = DEFAULT_SEED;
-    let mut threads = 0usize;
-    let mut i = 1;
-    while i < args.len() {
-        match args[i].as_str() {
-            "--tier" => {
-                tier = if args.get(i + 1).map(|s| s.as_str()) == Some("thorough") { Tier::Thorough } else { Tier::Quick };
-                i += 1;
-            }
-            "--seed" => {
-                seed = args.get(i + 1).and_then(|s| s.parse().ok()).unwrap_or(seed);
-                i += 1;
-            }
-            "--threads" => {
-                threads = args.get(i + 1).and_then(|s| s.parse().ok()).unwrap_or(0);
-                i += 1;
-            }
-            _ => usage(),
-        }
-        i += 1;
-    }
-    if let Ok(s) = std::env::var("VERIF_SEED") {
-        if let Ok(v) = s.trim().parse::<u64>() {
-            seed = v;
-        } else if let Ok(v) = s.trim().parse::<i64>() {
-            seed = v as u64;
-        }
-    }
-    if let Ok(t) = std::env::var("VERIF_TIER") {
-        match t.trim() {
-            "thorough" => tier = Tier::Thorough,
-            "quick" => tier = Tier::Quick,
-            _ => {}
-        }
-    }
-    if threads == 0 {
-        threads = match tier {
-            Tier::Quick => 8,
-            Tier::Thorough => 16,
-        };
-    }
-    SEED.store(seed, std::sync::atomic::Ordering::Relaxed);
-    let check = find(&id);
-    let known = Known::load();
-    for (p, _s, text) in &known.sigs {
-        if p == &id {
-            println!("KNOWN-FINDING: {text}");
-        }
-    }
-    // watchdog: a hang is "inconclusive", never a violation
-    let limit = match tier {
-        Tier::Quick => 1500,
-        Tier::Thorough => 4 * 3600,
-    };
-    std::thread::spawn(move || {
-        std::thread::sleep(std::time::Duration::from_secs(limit));
-        println!("INCONCLUSIVE watchdog: {id} exceeded {limit}s");
-        exit(2);
-    });
-    let id = check.id();
-    // regression tier: saved shrunk failures first
-    let mut replayed = 0u64;
-    let dir = format!("{VERIF_DIR}/regress/{id}");
-    if let Ok(rd) = std::fs::read_dir(&dir) {
-        let mut files: Vec<_> = rd.filter_map(|e| e.ok()).map(|e| e.path()).filter(|p| p.extension().map(|e| e == "json").unwrap_or(false)).collect();
-        files.sort();
-        for p in files {
-            let v: serde_json::Value = match std::fs::read_to_string(&p).ok().and_then(|t| serde_json::from_str(&t).ok()) {
-                Some(v) => v,
-                None => continue,
-            };
-            replayed += 1;
-            if let Err(f) = replay(check.as_ref(), &v) {
-                if known.matches(id, &f.sig).is_some() {
-                    continue;
-                }
-                println!("regression failure [{}]: {}", f.sig, f.msg);
-                println!("VIOLATION property={id} replay={}", p.display());
-                exit(1);
-            }
-        }
-    }
-    let out = drive(check.as_ref(), tier, seed, threads, &known);
-    write_evidence(check.as_ref(), tier, seed, &out, replayed);
-    let r = &out.report;
-    println!(
-        "{id} {} seed={seed}: {} cases, {} assertions, {} distinct non-trivial, max normalised error {:.3e}, {:.1}s",
-        tier.name(), r.evaluations, r.assertions, r.distinct.len(), r.max_err, out.wall_s
-    );
-    if let Some(v) = &out.violation {
-        if v.fail.sig == "proptest-abort" || v.fail.sig == "oracle-bug" {
-            println!("INCONCLUSIVE [{}]: {}", v.fail.sig, v.fail.msg);
-            exit(2);
-        }
-        let path = write_replay(id, &v.replay);
-        println!("failure [{}]: {}", v.fail.sig, v.fail.msg);
-        println!("VIOLATION property={id} replay={path}");
-        exit(1);
-    }
-    let missing: Vec<_> = check.required_classes(tier).into_iter().filter(|c| !r.classes.contains_key(*c)).collect();
-    if !missing.is_empty() {
-        println!("INCONCLUSIVE generator health: classes never produced: {missing:?}");
-        exit(2);
-    }
-    if r.distinct.len() < 2 {
-        println!("INCONCLUSIVE generator health: fewer than 2 distinct non-trivial cases");
-        exit(2);
-    }
-    exit(0);
+    cli::run_cli(registry, || exact::selftest(0x5eed).map(|_| ()).map_err(|e| format!("exact arithmetic: {e}")));
 }
